@@ -91,8 +91,9 @@ class Recorder:
                 except Exception:
                     ps = repr(p)
                 if not ps.startswith("/"):
-                    ps = os.path.normpath(os.path.join(cwd, ps))
-                res.append(ps)
+                    ps = os.path.join(cwd, ps)
+                # lexical normalisation: '<root>/../x' is not under the root
+                res.append(os.path.normpath(ps))
             ev = Event(name, res, detail, self._from_import(), cwd)
             with self.lock:
                 self.events.append(ev)
@@ -151,8 +152,12 @@ def under(path: str, root: str) -> bool:
     return path == root or path.startswith(root + "/")
 
 
+METADATA_PROBES = {"os.stat", "os.lstat", "os.access", "os.readlink"}
+
+
 def classify_outside(events: typing.List[Event], root: str, allowed_prefixes: typing.Sequence[str],
-                     allowed_exact: typing.Sequence[str] = ()) -> typing.List[Event]:
+                     allowed_exact: typing.Sequence[str] = (), probes: typing.Optional[typing.List[Event]] = None
+                     ) -> typing.List[Event]:
     """Events touching a path that is neither inside `root`, nor under an allowed prefix
     (the interpreter, the repository, /verif: the server's own code), nor made by the
     import machinery."""
@@ -165,6 +170,12 @@ def classify_outside(events: typing.List[Event], root: str, allowed_prefixes: ty
                 continue
             if any(under(p, a) for a in allowed_prefixes) or p in allowed_exact:
                 continue
+            if ev.name in METADATA_PROBES:
+                # a stat/access/readlink neither opens, reads, lists nor runs anything; whether its
+                # *result* is revealed is decided by comparing replies between outside worlds
+                if probes is not None:
+                    probes.append(ev)
+                break
             bad.append(ev)
             break
     return bad
